@@ -51,34 +51,34 @@ package manager
 //@   note the callbacks are assumed not to touch the manager
 
 //@ func (*Manager).handleGNMIUpdate
-//@   props C13 C12
+//@   props C13 C01 C12
 //@   requires Callbacks(m) && resp != nil && inSession[name]
 //@   requires resp.Response != nil ==> payload(resp.Response) != nil
 //@   modifies ghost updatesN, ghost syncsN, ghost lastUpdateMsg
-//@   ensures [every-update-is-handed-on C13] isa(resp.Response.(*gpb.SubscribeResponse_Update)) ==> res0 == nil && updatesN == upd(old(updatesN), name, old(updatesN[name]) + 1)
+//@   ensures [every-update-is-handed-on C13 C01] isa(resp.Response.(*gpb.SubscribeResponse_Update)) ==> res0 == nil && updatesN == upd(old(updatesN), name, old(updatesN[name]) + 1)
 //@     && lastUpdateMsg == resp.Response.(*gpb.SubscribeResponse_Update).Update && syncsN == old(syncsN)
-//@   ensures [every-sync-is-handed-on C13] isa(resp.Response.(*gpb.SubscribeResponse_SyncResponse)) ==> res0 == nil && syncsN == upd(old(syncsN), name, old(syncsN[name]) + 1) && updatesN == old(updatesN)
-//@   ensures [anything-else-is-an-error-and-not-handed-on C13] !isa(resp.Response.(*gpb.SubscribeResponse_Update)) && !isa(resp.Response.(*gpb.SubscribeResponse_SyncResponse))
+//@   ensures [every-sync-is-handed-on C13 C01] isa(resp.Response.(*gpb.SubscribeResponse_SyncResponse)) ==> res0 == nil && syncsN == upd(old(syncsN), name, old(syncsN[name]) + 1) && updatesN == old(updatesN)
+//@   ensures [anything-else-is-an-error-and-not-handed-on C13 C01] !isa(resp.Response.(*gpb.SubscribeResponse_Update)) && !isa(resp.Response.(*gpb.SubscribeResponse_SyncResponse))
 //@     ==> res0 != nil && updatesN == old(updatesN) && syncsN == old(syncsN)
 
 // One stream: Connect exactly once, after the first message; every message is
 // handed on inside the session, in stream order; the stream ends only with an error
 // from Recv, and then exactly one Reset is reported before returning.
 //@ func (*Manager).handleUpdates
-//@   props C13 C12
+//@   props C13 C01 C12
 //@   requires Callbacks(m) && ta != nil && sc != nil && ctx != nil && !inSession[ta.name]
 //@   modifies ghost inSession, ghost connectsN, ghost resetsN, ghost sendTimerArmed, ghost armedTimers, ghost streamRecvs, ghost updatesN, ghost syncsN, ghost lastUpdateMsg
 //@   invariant 0: streamRecvs >= old(streamRecvs) && resetsN == old(resetsN) && inSession[ta.name] == connected && connectsN[ta.name] == old(connectsN[ta.name]) + ite(connected, 1, 0)
 //@     && (forall k string :: k != ta.name ==> inSession[k] == old(inSession[k]) && connectsN[k] == old(connectsN[k]))
 //@   invariant 0: [receive-timeout-runs-only-while-receiving C13] (recvTimer != nil <==> ta.receiveTimeout > 0) && (recvTimer != nil ==> !has(armedTimers, recvTimer))
 //@     && spawns() == old(spawns()) + ite(ta.receiveTimeout > 0, 1, 0)
-//@   invariant 0: [every-received-message-is-handled-once C13] hits("call (*Manager).handleGNMIUpdate#0") - old(hits("call (*Manager).handleGNMIUpdate#0")) == streamRecvs - old(streamRecvs)
-//@   assert at call (*Manager).handleGNMIUpdate#0: [each-message-handed-on-as-received C13] arg1 == ta.name && arg2 == resp
+//@   invariant 0: [every-received-message-is-handled-once C13 C01] hits("call (*Manager).handleGNMIUpdate#0") - old(hits("call (*Manager).handleGNMIUpdate#0")) == streamRecvs - old(streamRecvs)
+//@   assert at call (*Manager).handleGNMIUpdate#0: [each-message-handed-on-as-received C13 C01] arg1 == ta.name && arg2 == resp
 //@   assert at call BidiStreamingClient.Recv#0: [receive-timeout-armed-while-receiving C13] recvTimer != nil ==> has(armedTimers, recvTimer)
 //@   ensures [one-watchdog-iff-a-receive-timeout-is-configured C13] spawns() == old(spawns()) + ite(ta.receiveTimeout > 0, 1, 0)
 //@   assert at call field Manager.connect#0: [connect-only-after-the-first-message C13] streamRecvs > old(streamRecvs)
 //@   ensures [stream-ends-only-on-error C13] res0 != nil
-//@   ensures [exactly-one-reset-ends-the-stream C13] resetsN[ta.name] == old(resetsN[ta.name]) + 1 && !inSession[ta.name]
+//@   ensures [exactly-one-reset-ends-the-stream C13 C01] resetsN[ta.name] == old(resetsN[ta.name]) + 1 && !inSession[ta.name]
 //@   ensures [at-most-one-connect C13] connectsN[ta.name] <= old(connectsN[ta.name]) + 1
 //@   ensures [other-targets-untouched C13] forall k string :: k != ta.name ==> inSession[k] == old(inSession[k]) && connectsN[k] == old(connectsN[k]) && resetsN[k] == old(resetsN[k])
 
